@@ -169,7 +169,7 @@ theorem setMergeImports_eq (c : Config) :
 theorem setFnArgsLayout_eq (c : Config) :
     setFnArgsLayout c = setAlias "fn_args_layout" "fn_params_layout" id c := rfl
 theorem setHideParseErrors_eq (c : Config) :
-    setHideParseErrors c = setAlias "hide_parse_errors" "show_parse_errors" id c := rfl
+    setHideParseErrors c = setAlias "hide_parse_errors" "show_parse_errors" negBool c := rfl
 
 theorem getE_setAlias (old new : String) (f : Val → Val) (c : Config) (k : String) :
     getE (setAlias old new f c) k =
@@ -935,7 +935,7 @@ theorem local_setFnArgsLayout : Local ["fn_args_layout", "fn_params_layout"] set
   local_setAlias "fn_args_layout" "fn_params_layout" id
 theorem local_setHideParseErrors :
     Local ["hide_parse_errors", "show_parse_errors"] setHideParseErrors :=
-  local_setAlias "hide_parse_errors" "show_parse_errors" id
+  local_setAlias "hide_parse_errors" "show_parse_errors" negBool
 
 theorem applyMethod_cases (m : String) :
     applyMethod m = setHeuristics ∨ applyMethod m = setMergeImports ∨
@@ -1257,7 +1257,7 @@ theorem ov_comm (k1 k2 : String) (v1 v2 : Val) (hne : k1 ≠ k2) (h1 : k1 ≠ "m
         (dispatch_other _ (by decide)) k1 k2 a3 (this ▸ m2) hne v1 v2 c
     by_cases a4 : k1 ∈ pairHP
     · have : block k1 = pairHP := by simp [block, a1, a2, a3, a4]
-      exact pair_comm' pairHP _ _ id rfl (by decide)
+      exact pair_comm' pairHP _ _ negBool rfl (by decide)
         (fun c => by rw [dispatch_hide_parse_errors, setHideParseErrors_eq])
         (dispatch_other _ (by decide)) k1 k2 a4 (this ▸ m2) hne v1 v2 c
     · have : block k1 = [k1] := by simp [block, a1, a2, a3, a4]
@@ -2160,7 +2160,7 @@ theorem alias_file (parsed : List (String × Val)) (se : StyleEdition) :
       (getE c "show_parse_errors").val =
         match parsed.lookup "show_parse_errors" with
         | some g => g
-        | none => v) := by
+        | none => negBool v) := by
   have m1 : "merge_imports" ∈ optionNames ∧ "imports_granularity" ∈ optionNames ∧
       "fn_args_layout" ∈ optionNames ∧ "fn_params_layout" ∈ optionNames ∧
       "hide_parse_errors" ∈ optionNames ∧ "show_parse_errors" ∈ optionNames := by decide +kernel
@@ -2179,7 +2179,7 @@ theorem alias_file (parsed : List (String × Val)) (se : StyleEdition) :
       id v m1.2.2.1 m1.2.2.2.1 n1.2.2.1 n1.2.2.2.1 hv
       (fillFromParsedConfig ⟨true⟩ (defaultWithStyleEdition se) parsed) hch.2.1
   · exact fill_alias _ parsed (wasSet_default se) "hide_parse_errors" "show_parse_errors"
-      id v m1.2.2.2.2.1 m1.2.2.2.2.2 n1.2.2.2.2.1 n1.2.2.2.2.2 hv
+      negBool v m1.2.2.2.2.1 m1.2.2.2.2.2 n1.2.2.2.2.1 n1.2.2.2.2.2 hv
       (fillFromParsedConfig ⟨true⟩ (defaultWithStyleEdition se) parsed) hch.2.2
 
 /-! ## The API setter against `override_value` -/
